@@ -164,7 +164,7 @@ func init() {
 		MinNontrivial: func(tier string) int {
 			return map[string]int{"quick": 250, "thorough": 8000}[tier]
 		},
-		RequiredFeatures: func(string) []string { return []string{"fold", "re-raised-pot", "flag:3-bet", "chance:3-bet"} },
+		RequiredFeatures: func(string) []string { return []string{"fold", "re-raised-pot", "flag:3-bet", "chance:3-bet", "refused-out-of-turn:fold"} },
 		CaseTimeout:      200e9,
 		Run: func(c *h.Ctx) {
 			po := PlayOpts{
@@ -173,7 +173,27 @@ func init() {
 				Gen:      h.GenOpts{MinPlayers: 2, DeepOnly: c.R.Intn(3) > 0},
 				Policies: []string{"random", "aggro", "aggro", "callstation", "nit", "maniac"},
 			}
-			p := RunPlay(c, po, &PlayMon{AfterHand: c14AfterHand})
+			probe := func(p *Play, e *h.Ev, gp int, pid string) bool {
+				// refused actions (out of turn) must leave no statistics behind
+				if p.R().Intn(3) == 0 {
+					t := e.T
+					var others []string
+					for i := range t.State.GamePlayerIndexes {
+						if id := h.PidOf(t, i); id != pid {
+							others = append(others, id)
+						}
+					}
+					if len(others) > 0 {
+						who := others[p.R().Intn(len(others))]
+						act := []string{"fold", "fold", "call", "check", "raise"}[p.R().Intn(5)]
+						if err := h.DoAction(p.SS.S.TE, who, act, 50); err != nil {
+							c.Feature("refused-out-of-turn:" + act)
+						}
+					}
+				}
+				return true
+			}
+			p := RunPlay(c, po, &PlayMon{AfterHand: c14AfterHand, BeforeAct: probe})
 			if p == nil {
 				return
 			}
